@@ -100,7 +100,7 @@ def build():
 POS = [
     ("AggregatorMC", "Aggregator_exh.cfg", True), ("AggregatorMC", "Aggregator_exh_block.cfg", True),
     ("AggregatorMC", "Aggregator_exh_q2.cfg", False), ("AggregatorMC", "Aggregator_exh_block_q2.cfg", False),
-    ("AggregatorMC", "Aggregator_exh_discard.cfg", True),
+    ("AggregatorMC", "Aggregator_exh_discard.cfg", True), ("AggregatorMC", "Aggregator_exh_memory.cfg", False),
     # a sink that fails (write error, partial write, short count, close error): the run FAILS, nothing is lost
     # silently - phout as fixed (the periodic flush ignores the error, the writer keeps it), encoder aggregators
     ("AggregatorMC", "Aggregator_exh_fault_block.cfg", True), ("AggregatorMC", "Aggregator_exh_fault_drop.cfg", True),
@@ -130,7 +130,7 @@ NEG = [
     ("AggregatorMC", "Aggregator_neg_nocount.cfg", True), ("AggregatorMC", "Aggregator_neg_late.cfg", False),
     # the code as found: phout dropped the error of its final flush / of Close, jsonEncoder.Flush bufio's error
     ("AggregatorMC", "Aggregator_neg_swallow_final.cfg", True), ("AggregatorMC", "Aggregator_neg_swallow_close.cfg", False),
-    ("AggregatorMC", "Aggregator_neg_swallow_tick.cfg", True),
+    ("AggregatorMC", "Aggregator_neg_swallow_tick.cfg", True), ("AggregatorMC", "Aggregator_neg_memory_reach.cfg", False),
     ("ShutdownMC", "Shutdown_neg_nowait.cfg", True), ("ShutdownMC", "Shutdown_neg_reach.cfg", False),
     # a first signal while the tasks of a FAILED run are awaited ends the process (seed C06-6)
     ("ShutdownMC", "Shutdown_neg_errsig.cfg", True),
@@ -448,7 +448,7 @@ def run(tier, v):
                                       for m in ("normal", "late", "burst", "engine", "cancel", "provfail", "staged", "dropstress")},
                             "engine_runs_provider_failed_midway": nprov,
                             "kinds": {k: sum(1 for r in rows if r["ev"] == "Run" and r["kind"] == k)
-                                      for k in ("phout", "jsonlines", "log", "discard")}, "engine_hook_events": nhooks,
+                                      for k in ("phout", "jsonlines", "log", "discard", "test")}, "engine_hook_events": nhooks,
                             "engine_runs_validated_by_TracePoolAgg": pa_validated,
                             "runs_with_failing_sink": {f: sum(1 for r in rows if r["ev"] == "Run" and r.get("fault") == f)
                                                        for f in ("err", "partial", "short", "close")},
